@@ -21,6 +21,17 @@ CHECKS = {
    "Capacity exhaustion is the fault; for every generated emitter history the thorough tier places it at every capacity 0..S (enumerated), the quick tier at the edge capacities plus seeded ones; after each refusal bytes, length, pc, labels must equal the pre-call snapshot, and a nil-target twin must track pc/labels/flags of a real emitter call by call. Histories are sampled, capacities enumerated.",
    "Trusts the naming-rule size table for instruction sizes and the reflection-based method catalogue; a clean run is evidence over the sampled histories, not proof."),
 }
+CHECKS.update({
+ "C06": ("exploration", "4 C06",
+   "Seeded emitter histories with constructed branch distances, missing/late labels, duplicate labels, tight capacities and Finalize at arbitrary points are run against asm.Emitter and a reference model; the order in which Finalize visits labels (the library's only runtime nondeterminism) is a scheduled, replayable choice via the map-range pass. Checks outcome iff-condition, every operand byte after success, nothing-but-operands after failure, error names a failing reference, refusals change nothing.",
+   "Sampled histories, not proof. Encodings are not checked (C03 unclaimed). Trusts the source-to-source map-range rewrite to produce only executions Go's range permits."),
+ "C15": ("exploration", "4 C15",
+   "Seeded histories with listing generation on; text and hex listings requested at arbitrary instants through simulated sinks (healthy, failing at write k, short-writing, dead); healthy listings are parsed and compared item by item with the model and byte for byte with Bytes(); any sink must leave the emitter and the next healthy listing unchanged and must not make the library panic.",
+   "Listing syntax is recognised by line shape only; mnemonic/operand spelling is not checked. Sampled histories."),
+ "C16": ("exploration", "4 C16",
+   "Three emitters (original, clone, directly-fed twin): seeded history, seeded split point, observations of the original (state, listings, target buffer) interleaved with operations on the clone, Append under exact/one-short/far-short/ample/nil capacities; refusal must be atomic, success must make original and twin agree on bytes, length, pc, flags, labels, both listings, Finalize outcome and finalized bytes.",
+   "Finalize/listings are not requested from the clone itself; byte images are not compared between a failed and the next successful Finalize (C06 allows any subset of operands to be patched). Sampled histories."),
+})
 PENDING = {p: "check under construction in this round (planned as claimed in DESIGN.md §4 "+p+"); not claimed until its world exists" for p in ["C06","C07","C10","C12","C13","C14","C15","C16","C18"]}
 
 def main():
